@@ -220,18 +220,27 @@ def add_envelope_rules(ctx):
     # ---- D3 rejections
     R.rule("C07-D3a reject before commit", 6, "five rejections, each GeneratorError, each without a commit; the commit is the only store")
     kinds = {}
+    def mentions_func(t, names):
+        return any(isinstance(x, App) and x.op == "call" and isinstance(x.args[0], Ref) and getattr(x.args[0].obj, "name", None) in names for x in subterms(t))
+
+    def mentions_attr(t, attr):
+        return any(isinstance(x, App) and x.op == "attr:" + attr for x in subterms(t))
     for r in raises:
-        last = r.conds[-1] if r.conds else None
-        s = repr(last)
-        if "not in('suit-manifest-component-id'" in s:
+        if not r.conds:
+            continue
+        (last, pol), = generic.norm_guards([(r.conds[-1], True)])
+        if isinstance(last, App) and last.op == "in" and last.args[0] == Const("suit-manifest-component-id") and not pol:
             kinds["missing component id"] = r
-        elif s.startswith("is(call(<func suit_generator.cmd_image:EnvelopeStorage._find_role>"):
-            kinds["unknown class"] = r
-        elif s.startswith("is(call(<func suit_generator.cmd_image:EnvelopeStorage._find_slot>"):
-            kinds["no slot"] = r
-        elif isinstance(last, App) and last.op in ("<", ">", "<=", ">="):
+        elif isinstance(last, App) and last.op == "is" and Const(None) in last.args and pol:
+            x = [a_ for a_ in last.args if a_ != Const(None)][0]
+            # what was looked up and not found: a slot (layout table / slot lookup), else a role (assignment table / role lookup)
+            if mentions_func(x, ("_find_slot",)) or mentions_attr(x, "_LAYOUT"):
+                kinds["no slot"] = r
+            elif mentions_func(x, ("_find_role",)) or mentions_attr(x, "_assignments"):
+                kinds["unknown class"] = r
+        elif isinstance(last, App) and last.op in ("<", ">", "<=", ">=") and pol:
             kinds["too large"] = r
-        elif isinstance(last, App) and last.op == "in" and "_envelopes" in s:
+        elif isinstance(last, App) and last.op == "in" and mentions_attr(last.args[1], "_envelopes") and pol:
             kinds["duplicate role"] = r
     want = ["missing component id", "unknown class", "no slot", "too large", "duplicate role"]
     for w in want:
@@ -249,7 +258,8 @@ def add_envelope_rules(ctx):
         size = [a for a in c.args if a != ln]
         want_g = ge0_form(App(">", (ln, size[0]))) if size and ln in c.args else None
         R.check("C07-D3a reject before commit", g is not None and want_g is not None and lin_key(g) == lin_key(want_g)
-                and isinstance(size[0], App) and size[0].op == "idx" and size[0].args[1] == Const(1),
+                and isinstance(size[0], App) and ((size[0].op == "idx" and size[0].args[1] in (Const(1), Const("size")))
+                                                  or (size[0].op == "unpack" and size[0].args[1:] == (Const(1), Const(2)))),
                 "rejected exactly when the record is larger than the slot size", mod=fi.module, node=tl.node, function=fq,
                 expected="len(envelope_bytes) > slot size", found=repr(c)[:200])
     dup = kinds.get("duplicate role")
@@ -263,13 +273,28 @@ def add_envelope_rules(ctx):
     fo = ev.outcomes(fs)
     R.rule("C07-D3c slot lookup", 1, "the slot returned belongs to the role of the class id")
     good = False
+    bad_alt = []
     for x in fo:
-        if x.kind == "return" and isinstance(x.value, (App, Const)):
-            li = list_items(x.value)
-            if li and len(li) == 2 and isinstance(li[0], App) and li[0].op == "idx" and li[0].args[1] == Const("offset") \
+        if x.kind != "return" or not isinstance(x.value, (App, Const)):
+            continue
+        # every alternative of the result that is a slot is (offset, size) of ONE entry, selected by that entry's role
+        for g_, alt in cases(x.value):
+            li = list_items(alt)
+            if not li:
+                if alt != Const(None):
+                    bad_alt.append(repr(alt)[:80])
+                continue
+            if len(li) == 2 and isinstance(li[0], App) and li[0].op == "idx" and li[0].args[1] == Const("offset") \
                     and li[1] == App("idx", (li[0].args[0], Const("size"))):
                 ent = li[0].args[0]
-                good = any(isinstance(c, App) and c.op == "==" and App("idx", (ent, Const("role"))) in c.args for c in x.conds)
+                conds_ = list(x.conds) + [c_ for c_, v_ in g_.items() if v_]
+                if any(isinstance(c, App) and c.op == "==" and App("idx", (ent, Const("role"))) in c.args for c in generic.conjuncts(conds_)):
+                    good = True
+                else:
+                    bad_alt.append("slot of an entry not selected by its role")
+            else:
+                bad_alt.append(repr(alt)[:80])
+    good = good and not bad_alt
     R.check("C07-D3c slot lookup", good, "(entry['offset'], entry['size']) of the entry whose role equals the class's role", mod=fs.module,
             node=fs.node, function=ctx.fq(fs), expected="entry['role'] == role", found="shape not recognised")
 
